@@ -283,6 +283,10 @@ func (m *memStore) Query(expression string, options ...spi.QueryOption) (spi.Ite
 	// Keyed by criterion (not by tag name): two criteria on the same tag name must both hold.
 	queryResults := make(map[string]*queryResult)
 
+	// One read lock over the scans of all criteria: the result is a snapshot of the store at one moment.
+	m.RLock()
+	defer m.RUnlock()
+
 	for _, exp := range strings.Split(expression, "&&") {
 		expressionSplit := strings.Split(exp, ":")
 		switch len(expressionSplit) {
@@ -366,6 +370,7 @@ func (m *memStore) Flush() error {
 	return nil
 }
 
+// The caller holds the store's read lock.
 func (m *memStore) getMatchingKeysAndDBEntries(tagName, tagValue string) ([]string, []dbEntry) {
 	var matchAnyValue bool
 	if tagValue == "" {
@@ -375,9 +380,6 @@ func (m *memStore) getMatchingKeysAndDBEntries(tagName, tagValue string) ([]stri
 	var keys []string
 
 	var dbEntries []dbEntry
-
-	m.RLock()
-	defer m.RUnlock()
 
 	for key, dbEntry := range m.db {
 		for _, tag := range dbEntry.tags {
